@@ -45,13 +45,13 @@ def run(rep, name, progs, dbset, relevant, target="sqlite", reduce_cap=60):
     if rel:
         todo = rel[:reduce_cap]
         out = red.reduce_all(name, [(byid[pid], what) for pid, what, _ in todo], dbset, target=target)
-        for (pid, what, det), (p2, k2, side2) in zip(todo, out):
+        for (pid, what, det), (p2, k2, side2, det2) in zip(todo, out):
             if side2 is not None:
-                reduced[pid] = (p2, side2)
+                reduced[pid] = (p2, side2, det2 or det)
     for pid, what, det in rel:
         side = res["side"].get(pid, {})
-        p_use, side_use = reduced.get(pid, (byid[pid], side))
-        sig = signature(p_use, what, det, side_use)
+        p_use, side_use, det_use = reduced.get(pid, (byid[pid], side, det))
+        sig = signature(p_use, what, det_use, side_use)
         if pid not in reduced and len(rel) > reduce_cap:
             # not reduced (cap): fall back to the features of the whole program
             sig = signature(byid[pid], what, det, side)
